@@ -2,6 +2,7 @@
 From Coq Require Import ZArith List Bool.
 From Coq Require Import Permutation Sorted.
 From CTM Require Import Base.Sx Model.Vote Proofs.CorrP Proofs.VoteP Proofs.VoteMainP Proofs.CentroidP.
+From CTM Require Import Base.SortX Model.Tree Model.Normalize Model.Markers Model.RefSide Proofs.TreeP Proofs.RefSideP Proofs.RefSideVoteP.
 Import ListNotations.
 Open Scope Z_scope.
 
@@ -89,3 +90,193 @@ Proof.
   - vm_compute. split; [reflexivity | discriminate].
 Qed.
 Print Assumptions c18_flat_subset_refuted.
+
+(* ====================================================================================================
+   The REFERENCE side (Model/RefSide.v): statistics file -> get_leaf_means -> assemble_query_data.
+   A value of a mean is `mean sum (max 1 n)` for an arbitrary embedding `mean` (type A): nothing below
+   depends on how the exact rational sum / max(1, n) is represented.
+   ==================================================================================================== *)
+
+(* (1) the mean of leaf c at gene g is sum(c,g) / max(1, n(c)), c and g looked up BY NAME in the statistics file
+   (sf_at: through cluster_to_row and col_names); the rows of the matrix are the sorted leaves, its columns the
+   gene list of the file *)
+Theorem c18_leaf_means_read_by_name : forall (A : Type) (mean : Z -> Z -> A) t sf fs m,
+  get_leaf_means A mean t sf fs = ROk m ->
+  m_cells m = zsort (nodes (leaf_level t)) /\ m_genes m = sf_cols sf /\ m_norm m = Log2CPM /\
+  length (m_data m) = length (m_cells m) /\
+  forall c g, In c (nodes (leaf_level t)) ->
+    mat_at A m c g = option_map (fun sn => mean (fst sn) (Z.max 1 (snd sn))) (sf_at sf c g).
+Proof. exact leaf_means_by_name. Qed.
+Print Assumptions c18_leaf_means_read_by_name.
+
+(* ... and for EVERY row order rp and column order cp of a well-formed file (sf_wf: what the writers produce),
+   the rearranged file -- rows, cluster_to_row, columns and col_names moved together -- reads the same by name
+   (this theorem), is accepted whenever the original is, and gives the same leaf means by name (the next one) *)
+Theorem c18_statistics_file_by_name : forall rp cp sf,
+  sf_wf sf -> NoDup (sf_cols sf) ->
+  Permutation rp (seq 0 (length (sf_n sf))) -> Permutation cp (seq 0 (length (sf_cols sf))) ->
+  forall c g, sf_at (rearrange rp cp sf) c g = sf_at sf c g.
+Proof. exact sf_at_rearrange. Qed.
+Print Assumptions c18_statistics_file_by_name.
+
+Theorem c18_leaf_means_by_name : forall (A : Type) (mean : Z -> Z -> A) rp cp t sf fs m,
+  sf_wf sf ->
+  Permutation rp (seq 0 (length (sf_n sf))) -> Permutation cp (seq 0 (length (sf_cols sf))) ->
+  get_leaf_means A mean t sf fs = ROk m ->
+  exists m', get_leaf_means A mean t (rearrange rp cp sf) fs = ROk m' /\
+    m_cells m' = m_cells m /\ Permutation (m_genes m') (m_genes m) /\
+    forall c g, In c (nodes (leaf_level t)) ->
+      mat_at A m' c g = mat_at A m c g /\
+      mat_at A m c g = option_map (fun sn => mean (fst sn) (Z.max 1 (snd sn))) (sf_at sf c g).
+Proof. exact leaf_means_order_independent. Qed.
+Print Assumptions c18_leaf_means_by_name.
+
+(* (2) for a valid taxonomy: the rows of reference_data for parent P are exactly the leaves below P (= the leaves
+   whose ancestor at P's level is P; all leaves for the root), each once, sorted by name; reference_types is
+   parallel to the rows and reference_types[i] is the child of P that is the ancestor-or-self of row i's leaf
+   (ancestor_at is a function: that child is unique).  Single-child chains and parents whose children are
+   leaves are included (child_level_of P < length t is all that is needed, and it is a conclusion). *)
+Theorem c18_reference_rows_are_the_parents_leaves :
+  forall (A : Type) t groups refg qg qgenes qnorm (m : rmat A) parent a,
+  validate t = true -> wf t ->
+  assemble_reference A t groups refg qg qgenes qnorm m parent = ROk a ->
+  (child_level_of parent < length t)%nat /\
+  Sorted Z.le (m_cells (a_ref a)) /\ NoDup (m_cells (a_ref a)) /\
+  (forall l, In l (m_cells (a_ref a)) <->
+     exists c, In c (children t parent) /\
+               ancestor_at t (length t - 1) l (child_level_of parent) = Some c) /\
+  (forall li x, parent = Some (li, x) ->
+     forall l, In l (m_cells (a_ref a)) <-> ancestor_at t (length t - 1) l li = Some x) /\
+  (parent = None -> forall l, In l (m_cells (a_ref a)) <-> In l (nodes (leaf_level t))) /\
+  length (a_types a) = length (m_cells (a_ref a)) /\
+  length (m_data (a_ref a)) = length (m_cells (a_ref a)) /\
+  (forall i l, nth_error (m_cells (a_ref a)) i = Some l ->
+     exists c, nth_error (a_types a) i = Some c /\ In c (children t parent) /\
+               ancestor_at t (length t - 1) l (child_level_of parent) = Some c).
+Proof. exact reference_rows. Qed.
+Print Assumptions c18_reference_rows_are_the_parents_leaves.
+
+(* (3) column j of reference_data is the column of the reference matrix NAMED
+   all_ref_identifiers[reference_markers[j]] (entry (i, j) = the entry of m at row-name l, column-name g),
+   whatever the order of the genes in m, i.e. in the statistics file; the query genes are the same list *)
+Theorem c18_reference_columns_by_name :
+  forall (A : Type) t groups refg qg qgenes qnorm (m : rmat A) parent a,
+  assemble_reference A t groups refg qg qgenes qnorm m parent = ROk a ->
+  exists ri qi, tget parent groups = Some (ri, qi) /\
+    names_at refg ri = Some (m_genes (a_ref a)) /\ names_at qg qi = Some (a_qgenes a) /\
+    a_qgenes a = m_genes (a_ref a) /\ NoDup (m_genes (a_ref a)) /\
+    m_norm (a_ref a) = Log2CPM /\
+    forall i j l r, nth_error (m_cells (a_ref a)) i = Some l -> nth_error ri j = Some r ->
+      exists g row v, nth_error refg r = Some g /\ nth_error (m_genes (a_ref a)) j = Some g /\
+        nth_error (m_data (a_ref a)) i = Some row /\ nth_error row j = Some v /\
+        mat_at A m l g = Some v.
+Proof. exact reference_columns. Qed.
+Print Assumptions c18_reference_columns_by_name.
+
+(* ... and with a cache written by write_query_markers (c08_pairing_by_name): the columns are the genes of the
+   marker table's entry for P, and query column j and reference column j carry the SAME gene name, which is
+   all_ref_identifiers[reference[j]] = all_query_identifiers[query[j]] *)
+Theorem c18_columns_aligned :
+  forall (A : Type) tb t refg qg c qgenes qnorm (m : rmat A) parent a,
+  write_query_markers tb refg qg = MOk c ->
+  assemble_reference A t (c_groups c) refg qg qgenes qnorm m parent = ROk a ->
+  exists ri qi l, tget parent (c_groups c) = Some (ri, qi) /\
+    In (parent, l) tb /\ Permutation l (m_genes (a_ref a)) /\ a_qgenes a = m_genes (a_ref a) /\
+    forall j r s, nth_error ri j = Some r -> nth_error qi j = Some s ->
+      exists g, nth_error (m_genes (a_ref a)) j = Some g /\ nth_error (a_qgenes a) j = Some g /\
+                nth_error refg r = Some g /\ nth_error qg s = Some g.
+Proof. exact columns_aligned. Qed.
+Print Assumptions c18_columns_aligned.
+
+(* (4) a profile q that equals the mean profile of leaf L, by name, on the genes assembled for P IS row
+   index-of-L of reference_data, and reference_types there is P's child on the path to L *)
+Theorem c18_centroid_is_a_reference_row :
+  forall (A : Type) t groups refg qg qgenes qnorm (m : rmat A) parent a L (q : list A),
+  validate t = true -> wf t ->
+  assemble_reference A t groups refg qg qgenes qnorm m parent = ROk a ->
+  In L (m_cells (a_ref a)) ->
+  Forall2 (fun g v => mat_at A m L g = Some v) (m_genes (a_ref a)) q ->
+  exists i c, nth_error (m_cells (a_ref a)) i = Some L /\ nth_error (m_data (a_ref a)) i = Some q /\
+              nth_error (a_types a) i = Some c /\ In c (children t parent) /\
+              ancestor_at t (length t - 1) L (child_level_of parent) = Some c.
+Proof. exact centroid_is_a_reference_row. Qed.
+Print Assumptions c18_centroid_is_a_reference_row.
+
+(* the composed corollary: c18_centroid_partial with its hypotheses `nth_error refs l = Some rl`,
+   `getcols S rl = getcols S q` and the owners DISCHARGED from (1)-(4): refs and owners are what the reference side
+   builds from the statistics file, the taxonomy and the marker cache, and the cell is the centroid of leaf L read
+   BY NAME from the statistics file (is_centroid_of).  Still `_partial` for the reason c18_centroid_partial is: the
+   hypothesis "not flat on the subset" (finding F6). *)
+Theorem c18_centroid_through_the_stages_partial :
+  forall (mean : Z -> Z -> Z) t sf fs m groups refg qg qgenes qnorm P a L q S i,
+  validate t = true -> wf t ->
+  get_leaf_means Z mean t sf fs = ROk m ->
+  assemble_reference Z t groups refg qg qgenes qnorm m P = ROk a ->
+  In L (m_cells (a_ref a)) ->
+  is_centroid_of mean sf L (m_genes (a_ref a)) q ->
+  0 < ccov (getcols S q) (getcols S q) ->
+  (forall j rj c, nth_error (m_data (a_ref a)) j = Some rj ->
+       ancestor_at t (length t - 1) L (child_level_of P) = Some c -> nth j (a_types a) (-1) <> c ->
+       let qs := getcols S q in let rs := getcols S rj in
+       ccov rs rs = 0 \/ ccov qs rs < 0 \/ ccov qs rs * ccov qs rs < ccov qs qs * ccov rs rs) ->
+  nearest q (m_data (a_ref a)) S = Some i ->
+  In (nth i (a_types a) (-1)) (children t P) /\
+  ancestor_at t (length t - 1) L (child_level_of P) = Some (nth i (a_types a) (-1)).
+Proof. exact centroid_through_the_stages. Qed.
+Print Assumptions c18_centroid_through_the_stages_partial.
+
+(* ... and c18_centroid_unanimous_partial likewise: every iteration at P is won by a leaf of the child of P above L *)
+Theorem c18_centroid_vote_through_the_stages_partial :
+  forall (mean : Z -> Z -> Z) t sf fs m groups refg qg qgenes qnorm P a L q subsets winners c,
+  validate t = true -> wf t ->
+  get_leaf_means Z mean t sf fs = ROk m ->
+  assemble_reference Z t groups refg qg qgenes qnorm m P = ROk a ->
+  In L (m_cells (a_ref a)) ->
+  is_centroid_of mean sf L (m_genes (a_ref a)) q ->
+  ancestor_at t (length t - 1) L (child_level_of P) = Some c ->
+  Forall (fun S => 0 < ccov (getcols S q) (getcols S q) /\
+            forall j rj, nth_error (m_data (a_ref a)) j = Some rj -> nth j (a_types a) (-1) <> c ->
+              let qs := getcols S q in let rs := getcols S rj in
+              ccov rs rs = 0 \/ ccov qs rs < 0 \/ ccov qs rs * ccov qs rs < ccov qs qs * ccov rs rs) subsets ->
+  tally q (m_data (a_ref a)) subsets = Some winners ->
+  In c (children t P) /\
+  length winners = length subsets /\
+  Forall (fun w => nth w (a_types a) (-1) = c) winners /\
+  votes_for (a_types a) winners c = length subsets /\
+  (forall c', c' <> c -> votes_for (a_types a) winners c' = 0%nat).
+Proof. exact centroid_vote_through_the_stages. Qed.
+Print Assumptions c18_centroid_vote_through_the_stages_partial.
+
+(* non-vacuity: a two-level taxonomy with an unsorted child list and a single-child node, a statistics file with
+   its rows in another order, a cluster outside the taxonomy, a cluster of 0 cells, genes in the order 12, 10, 11
+   (the query: 11, 12, 10), means over the common denominator 4 *)
+Example c18_refside_example_tree : validate ex_tree = true /\ wf ex_tree.
+Proof. exact ex_tree_ok. Qed.
+Example c18_refside_example_leaf_means :
+  get_leaf_means Z ex_mean ex_tree ex_sf false =
+  ROk (mk_rmat [2; 3; 5] [12; 10; 11] [[8; 0; 24]; [20; 40; 60]; [4; 8; 12]] Log2CPM).
+Proof. exact ex_leaf_means. Qed.
+Example c18_refside_example_file_wf :
+  sf_wf ex_sf /\ Permutation [2%nat; 0%nat; 3%nat; 1%nat] (seq 0 (length (sf_n ex_sf))) /\
+  Permutation [1%nat; 2%nat; 0%nat] (seq 0 (length (sf_cols ex_sf))).
+Proof. exact ex_file_wf. Qed.
+Example c18_refside_example_root :
+  rbind (get_leaf_means Z ex_mean ex_tree ex_sf false) (fun m =>
+    assemble_reference Z ex_tree ex_groups ex_refg ex_qg ex_qg Log2CPM m None) =
+  ROk (mk_assembled Z (mk_rmat [2; 3; 5] [12; 11] [[8; 24]; [20; 60]; [4; 12]] Log2CPM) [1; 1; 0] [12; 11]).
+Proof. exact ex_assemble_root. Qed.
+Example c18_refside_example_node :
+  rbind (get_leaf_means Z ex_mean ex_tree ex_sf false) (fun m =>
+    assemble_reference Z ex_tree ex_groups ex_refg ex_qg ex_qg Log2CPM m (Some (0%nat, 1))) =
+  ROk (mk_assembled Z (mk_rmat [2; 3] [12; 10; 11] [[8; 0; 24]; [20; 40; 60]] Log2CPM) [2; 3] [12; 10; 11]).
+Proof. exact ex_assemble_node. Qed.
+Example c18_refside_example_centroid : is_centroid_of ex_mean ex_sf 3 [12; 10; 11] [20; 40; 60].
+Proof. exact ex_centroid. Qed.
+Example c18_refside_example_vote :
+  let q := [20; 40; 60] in let refs := [[8; 0; 24]; [20; 40; 60]] in let S := [0%nat; 1%nat; 2%nat] in
+  0 < ccov (getcols S q) (getcols S q) /\
+  ccov (getcols S q) (getcols S [8; 0; 24]) * ccov (getcols S q) (getcols S [8; 0; 24]) <
+    ccov (getcols S q) (getcols S q) * ccov (getcols S [8; 0; 24]) (getcols S [8; 0; 24]) /\
+  nearest q refs S = Some 1%nat /\
+  ancestor_at ex_tree 1 3 1 = Some 3.
+Proof. exact ex_vote. Qed.
